@@ -62,6 +62,29 @@ SameNode(x, y) == IF x.k = "dir" THEN y.k = "dir" ELSE x = y
 C03_UntrackedOnDiskUntouched(plan, before, after) ==
   \A p \in Nodes(before) : ~DescribedByPlan(plan, p) => SameNode(At(before, p), At(after, p))
 
+\* ----------------------------------------------------- C18 on the filesystem
+\* (the endpoint that preserves executable bits).  The planned new entry at p, if
+\* some change covers p; Nil if the plan removes it; "untouched" if no change does.
+PlannedAt(plan, p) ==
+  IF \E j \in 1..Len(plan) : IsPrefix(plan[j].path, p)
+  THEN LET j == CHOOSE i \in 1..Len(plan) : IsPrefix(plan[i].path, p)
+       IN At(plan[j].new, SubSeq(p, Len(plan[j].path) + 1, Len(p)))
+  ELSE [k |-> "untouched"]
+\* A path that held an executable regular file before the transition and holds a
+\* regular file afterwards, and whose planned entry is an executable file (or that
+\* no change touches), still has an executable bit on disk - whatever went wrong
+\* during the transition and whatever was reported.
+C18_ExecBitOnDiskSurvives(plan, before, after, results) ==
+  \A p \in Nodes(before) :
+     LET b == At(before, p)  a == At(after, p)  n == PlannedAt(plan, p) IN
+     (b.k = "file" /\ b.x /\ a.k = "file" /\ (n.k = "untouched" \/ (n.k = "file" /\ n.x))) => a.x
+\* the executability reported for a file equals the one found on disk
+C18_ReportedExecMatchesDisk(plan, results, after) ==
+  \A j \in 1..Len(plan) : j <= Len(results) =>
+     \A q \in Nodes(results[j]) :
+        LET e == At(results[j], q)  a == At(after, plan[j].path \o q) IN
+        (e.k = "file" /\ a.k = "file") => a.x = e.x
+
 \* a transition never changes anything outside the subtrees its plan names
 C08_OutsidePlanUntouched(plan, before, after) ==
   \A p \in Nodes(before) : (\A j \in 1..Len(plan) : ~IsPrefix(plan[j].path, p) /\ ~IsPrefix(p, plan[j].path))
